@@ -22,8 +22,8 @@ func init() {
 			"operations issued on a datatype before it is SUBSCRIBED are void if the server answers with a subscribe (the SDK discards them by design)",
 		},
 		Trusted: []string{"fakemongo", "fakemqtt", "harness transport (direct mode)", "monitors in /verif/harness"},
-		Cases:   func(t string) int { return tierN(t, 600, 8000) },
-		Floor:   func(t string) int { return tierN(t, 80, 1000) },
+		Cases:   func(t string) int { return tierN(t, 1200, 8000) },
+		Floor:   func(t string) int { return tierN(t, 160, 1000) },
 		Run:     runC05,
 	})
 }
